@@ -17,6 +17,12 @@ DUMP = r'''
 #include <stdlib.h>
 #include <stdarg.h>
 #include SERCOMM_C
+#ifdef SERCOMM_EXTRA1
+#include SERCOMM_EXTRA1
+#endif
+#ifdef SERCOMM_EXTRA2
+#include SERCOMM_EXTRA2
+#endif
 #ifdef HOST_BUILD
 void osmo_panic(const char *fmt, ...) { abort(); }
 static int got = -1;
@@ -87,6 +93,28 @@ int main(void)
 '''
 
 SERCOMM_C = "src/target/firmware/comm/sercomm.c"
+SERCOMM_API = ["sercomm_init", "sercomm_sendmsg", "sercomm_drv_pull", "sercomm_drv_rx_char", "sercomm_register_rx_cb", "sercomm_tx_queue_depth"]
+
+
+def sercomm_sources():
+    """sercomm.c plus the files of firmware/comm that define a function of the sercomm API which sercomm.c does not define in
+    this tree (the receiver or the transmitter moved into a file of its own)"""
+    import re
+    d = os.path.dirname(os.path.join(vf.REPO, SERCOMM_C))
+
+    def defines(path, f):
+        txt = re.sub(r"/\*.*?\*/", "", open(path, errors="replace").read(), flags=re.S)
+        return re.search(r"^[A-Za-z_][^;{}()]*\b%s\s*\([^;{}]*\)\s*\{" % f, txt, re.M) is not None
+    out = [os.path.join(vf.REPO, SERCOMM_C)]
+    for f in SERCOMM_API:
+        if any(defines(p, f) for p in out):
+            continue
+        for fn in sorted(os.listdir(d)):
+            p = os.path.join(d, fn)
+            if fn.endswith(".c") and fn.startswith("sercomm") and fn != "sercomm_cons.c" and p not in out and defines(p, f):
+                out.append(p)
+                break
+    return out
 
 
 def _dump(run, host):
@@ -95,7 +123,7 @@ def _dump(run, host):
     exe = os.path.join(run.scratch, "gen_sercomm_%s" % tag)
     open(src, "w").write(DUMP)
     sc = os.path.join(vf.REPO, SERCOMM_C)
-    cmd = ["gcc", "-O0", "-w", '-DSERCOMM_C="%s"' % sc]
+    cmd = ["gcc", "-O0", "-w", '-DSERCOMM_C="%s"' % sc] + ['-DSERCOMM_EXTRA%d="%s"' % (i + 1, q) for i, q in enumerate(sercomm_sources()[1:3])]
     if host:
         # as src/host/osmocon/Makefile.am: -I firmware/include/comm -DHOST_BUILD, linked with libosmocore's msgb
         cmd += ["-DHOST_BUILD", "-I", os.path.join(cbuild.FW_INC, "comm"),
